@@ -1,4 +1,12 @@
 -- Root of the `SteelVerif` library: every model, lemma and property file.
 import SteelVerif.C01.Props
+import SteelVerif.C04.Props
 import SteelVerif.C05.Props
 import SteelVerif.C06.Props
+import SteelVerif.C09.Props
+import SteelVerif.C10.Props
+import SteelVerif.C11.Props
+import SteelVerif.C11.GenSound
+import SteelVerif.C14.Props
+import SteelVerif.C19.Props
+import SteelVerif.C20.Props
